@@ -26,7 +26,8 @@ Record classdef := {
   c_cctor_nonconst : bool;           (* ... whose parameter is C & (not const) *)
   c_other_ctor : bool;               (* some other user-declared constructor *)
   c_move : bool;                     (* user-declared move constructor *)
-  c_dtor : option (special * bool)   (* user-declared destructor, virtual? *)
+  c_dtor : option (special * bool);  (* user-declared destructor, virtual? *)
+  c_dtor_pure : bool                 (* ... declared  = 0  (only with a virtual destructor) *)
 }.
 
 (* a virtual function as get_virtual_funcs lists it *)
@@ -65,7 +66,13 @@ Definition virtual_funcs (env : list summary) (c : classdef) : list vfunc :=
   let dtor_virtual := match c_dtor c with
                       | Some (sp, v) => (v || existsb vf_dtor inherited) && negb (sp_deleted sp)
                       | None => false end in
-  kept ++ own ++ (if dtor_virtual then [{| vf_name := 0; vf_sig := 0; vf_pure := false; vf_dtor := true |}] else []).
+  kept ++ own ++ (if dtor_virtual then [{| vf_name := 0; vf_sig := 0; vf_pure := c_dtor_pure c; vf_dtor := true |}] else []).
+
+(* get_pure_virtual_funcs: a pure virtual destructor listed from a base (the class declares none itself) is overridden by the
+   implicitly declared destructor and does not make the class abstract.  The pinned code counted it. *)
+Definition counts_pure (c : classdef) (f : vfunc) : bool :=
+  vf_pure f && negb (vf_dtor f && match c_dtor c with Some _ => false | None => true end).
+Definition abstract_pinned (vfs : list vfunc) : bool := existsb vf_pure vfs.
 
 Definition field_dflt (md : mode) (env : list summary) (f : field) : bool :=
   if f_static f || f_init f then true else
@@ -120,7 +127,7 @@ Definition analyze1 (md : mode) (env : list summary) (c : classdef) : summary :=
                           match md with Impl => true | Cxx => s_destr (lookup env (b_class b)) Protected end) (c_bases c)
         && forallb (field_copy md env) (c_fields c)
     end in
-  {| s_vfuncs := vfs; s_abstract := existsb vf_pure vfs; s_poly := negb (match vfs with [] => true | _ => false end);
+  {| s_vfuncs := vfs; s_abstract := existsb (counts_pure c) vfs; s_poly := negb (match vfs with [] => true | _ => false end);
      s_dflt := dflt; s_copy := copy; s_destr := destr |}.
 
 Definition analyze (md : mode) (cs : list classdef) : list summary :=
